@@ -167,6 +167,11 @@ def collect_defaults():
     return found
 
 
+# scalar settings an echo may copy (none of them is mirrored in an op's "meta")
+ECHO_KEYS = {"qrange", "qconst", "rdelta", "a", "c", "sigma", "gaussian_cut", "deltar", "cal_type", "onlypositive",
+             "coarse_graining", "mean_norm", "eigvals", "transform_matrix", "average_complex", "shiftpotential"}
+
+
 class Entry:
     __slots__ = ("name", "kind", "value", "tag", "depth", "src", "base")
 
@@ -206,6 +211,7 @@ class World(WorldBase):
             "p_centred": rng.choice([0.1, 0.4, 0.8]),
             "p_reuse": rng.choice([0.3, 0.6, 0.9]),
             "clients": rng.randint(1, 3),
+            "p_echo": rng.choice([0.0, 0.15, 0.3]),
             "faults": [],
         }
         if batch == "fault":
@@ -228,6 +234,7 @@ class World(WorldBase):
         self.next_id = 0
         self.history = {}     # op id -> op (acknowledged, defining ops only are needed for closures)
         self.last_call = {}   # adapter id -> canonical digest of its last result (repeat-call probe)
+        self.recent = []      # the last few acknowledged call ops (for echoes)
         self.server = None
         self.defaults = []
         if not replica:
@@ -320,8 +327,26 @@ class World(WorldBase):
         if nsn == 0 or (nsn < 3 and rng.random() < 0.08):
             return self.stamp(self.ad.gen_mk_snaps(self, rng), rng)
         for _try in range(60):
-            a = self.ad.choose(self, rng)
+            echo = None
+            if self.recent and rng.random() < sw.get("p_echo", 0.0):
+                # another client repeats a recent call - same entry point, same scalar settings -
+                # on (preferably) another object or trajectory: what weakly keyed caches and
+                # state shared between objects need in order to show
+                echo = rng.choice(self.recent)
+                a = self.ad.REG[echo["ad"]]
+            else:
+                a = self.ad.choose(self, rng)
             op = a.gen(self, rng)
+            if op is not None and echo is not None:
+                for _again in range(3):
+                    if op is None or op.get("obj") != echo.get("obj") or "obj" not in echo:
+                        break
+                    op = a.gen(self, rng)
+                if op is not None:
+                    for k, v in echo.get("args", {}).items():
+                        if k in ECHO_KEYS and k in op.get("args", {}) and not isinstance(v, (dict, list)):
+                            op["args"][k] = v
+                    self.ctx.probe("echo_calls")
             if op is None:
                 continue
             op["op"] = "call"
@@ -331,7 +356,15 @@ class World(WorldBase):
                 kind = rng.choice(sw["faults"])
                 if kind == "interrupt_line":
                     nln = self.dry_lines(lambda: self.exec_call(op, dry=True))
-                    if nln > 0:
+                    if nln > 0 and "obj" not in op and rng.random() < 0.5:
+                        # crash-point sweep: the same call is cancelled at m instants spread over
+                        # its whole execution (inputs must be intact after each), then runs to
+                        # completion and is judged as usual
+                        m = min(nln, rng.choice([6, 12, 20]))
+                        ats = sorted({1 + (k * nln) // m + rng.randrange(max(1, nln // m)) for k in range(m)})
+                        op["fault"] = {"kind": "interrupt_line_sweep", "ats": [min(nln, x) for x in ats], "at": ats[0]}
+                        self.ctx.probe("dry_runs_lines")
+                    elif nln > 0:
                         op["fault"] = {"kind": kind, "at": rng.randint(1, nln)}
                         self.ctx.probe("dry_runs_lines")
                 elif a.faultable:
@@ -405,8 +438,22 @@ class World(WorldBase):
             return "replica"
         ctx = self.ctx
         tag = a.id
-        before = dirstate(ctx.root)
         fault = op.get("fault")
+        if fault and fault["kind"] == "interrupt_line_sweep":
+            if "obj" in op:
+                raise Refuse("sweeps are for calls without a long-lived object")
+            for at in fault["ats"]:
+                before = dirstate(ctx.root)
+                _res, exc, (_nev, _dig, fired) = self.call(lambda: self.exec_call(op), {"kind": "interrupt_line", "at": at})
+                self.drop_last()
+                self.check_inputs(tag, op)
+                after = dirstate(ctx.root)
+                for p in after:
+                    if before.get(p) != after[p]:
+                        self.files.pop(p, None)
+                ctx.probe("sweep_cancellations" if fired else "sweep_point_past_end")
+            fault = None
+        before = dirstate(ctx.root)
         res, exc, (nev, dig, fired) = self.call(lambda: self.exec_call(op), fault)
         self.drop_last()          # C18's clients never keep the exception of a failed call
         after = dirstate(ctx.root)
@@ -483,6 +530,7 @@ class World(WorldBase):
             ctx.probe("entry_point_called_again")
         self.last_call[tag] = d_live
         self.register(op, a, res, delta)
+        self.recent = (self.recent + [op])[-6:]
         ctx.probe(f"ok:{tag}")
         return f"{tag} {d_live} files={len(delta)} ev={nev}"
 
@@ -565,7 +613,7 @@ class World(WorldBase):
         for o in ops:
             f = o.get("fault")
             out.append((o["op"], o.get("ad"), o.get("obj"), tuple(sorted(self.refs(o.get("args", {})))),
-                        tuple(sorted(o.get("reads", {}))), (f["kind"], min(f["at"], 30) if f["kind"] != "interrupt_line" else min(f["at"] // 25, 40)) if f else None))
+                        tuple(sorted(o.get("reads", {}))), (f["kind"], min(f["at"], 30) if not f["kind"].startswith("interrupt_line") else min(f["at"] // 25, 40)) if f else None))
         return tuple(out)
 
     def nontrivial(self, ops):
